@@ -120,6 +120,9 @@ static void evaluate(int fn, const unsigned char *in, size_t n, const char *path
         if (r < 0) { const char *em = c->errmsg(c); vf_count("errors_reported", 1);
             if (em) { if (strstr(em, "Quotation")) vf_count("branch:apache_unclosed_quote", 1); if (strstr(em, "not closed")) vf_count("branch:apache_unclosed_section", 1); if (strstr(em, "Missing closing")) vf_count("branch:apache_missing_bracket", 1); } }
         else vf_count("results_delivered", 1);
+        /* one parser object is reused after an error (reseterror + parse again + errmsg): every third rejected input */
+        if (r < 0 && (vf_cur_case % 3) == 0) { c->reseterror(c); arm(FNAME[fn], n + 4096); int r2 = c->parse(c, path, (uint8_t)CUR_FLAGS); disarm(); const char *em2 = c->errmsg(c);
+            if (r2 < 0 && em2) { size_t l = strlen(em2); (void)l; } vf_count("apache_reparses_after_reseterror", 1); }
         c->free(c); break; }
     }
     long live = 0; (void)live;
